@@ -286,6 +286,26 @@ def h_long_expr(eng, inst, body, last, bo, ps):
                   [type(g).__name__ for g in got],))
 
 
+def h_truncated(eng, base, name, bo, ps):
+    """Every proper prefix of an encoding is a truncated input: decoding it must raise (EOFError/ValueError), never
+    return an object built from bytes that are not there."""
+    registry_check()
+    kinds = table(base)[name][1]
+    vals = sym_operands(eng, "", kinds, 7, None)
+    eng.assume(domain(base, name, vals, ps))
+    x = build(base, name, vals)
+    enc = x.encode(bo, ps)
+    full = [enc[i] for i in range(len(enc))]
+    for k in range(len(full)):
+        prefix = SBytes(full[:k]) if eng.sym else bytes(full[:k])
+        try:
+            d, n = base_cls(base).decode(reader(prefix), bo, ps)
+        except (EOFError, ValueError):
+            continue
+        eng.fail("decode of the first %d of %d bytes of %s returned %r (consumed %r) instead of raising" % (k, len(full), name, d, n))
+    eng.ok()
+
+
 # ---------------------------------------------------------------------------
 # family B: decode of arbitrary buffers
 # ---------------------------------------------------------------------------
@@ -524,6 +544,11 @@ def make_check(tier):
                         params=dict(base=base, first_values=list(range(lo, lo + 16)), bo=bo, ps=ps, tail=tail),
                         timeout=1500)
     insts = sorted(R.DW_CFA)
+    for base_, tbl_ in (("op", R.DW_OP), ("inst", R.DW_CFA)):
+        for name in sorted(tbl_):
+            if "block" in tbl_[name][1]:
+                continue  # nested expressions: the length prefix case is longexpr/*
+            chk.add("truncated/%s/%s" % (base_, name), h_truncated, params=dict(base=base_, name=name, bo="little", ps=8), timeout=600)
     for inst in ("def_cfa_expression", "expression", "val_expression"):
         for body in ((127, 128, 129) if tier == "quick" else (126, 127, 128, 129, 130, 255, 256)):
             for last in ("plus", "const1u"):
@@ -548,6 +573,7 @@ def make_check(tier):
             chk.add("make_const/%s/%s%d" % ("OpConst" if via else "make_const_op", bo, ps), h_make_const,
                     params=dict(via_ctor=via, bo=bo, ps=ps))
     chk.bounds = {
+        "truncated input": "every proper prefix of the encoding of every operation/instruction without a nested expression",
         "long expressions": "expression bodies of 127-129 bytes (thorough: 126-130, 255, 256) around the length prefix boundary, last operation one or two bytes",
         "operand magnitude": "|v| <= 2^%d for classes with one LEB128 operand, 2^%d each for two, 2^10 inside nested expressions "
                              "(LEB128 loops unroll by path forking; larger operands outside the claim)" % (cap, min(cap, 28)),
